@@ -110,8 +110,45 @@ SubstVerdict(c, e) ==
   ELSE IF \E i \in DOMAIN e.evals : e.evals[i].how = "numeric_operator" /\ bad(e.evals[i]) THEN "numeric_operator_differs_from_symbolic_result_at_sigma"
   ELSE "ok"
 
+(***************************************************************************)
+(* C14: relabelling.  e.u = custom configuration, operands/result recorded  *)
+(* there (args, res) and in the default-basis algebra of the same signature *)
+(* (args0, res0).  Phi(x)[PhiBlade(B)] = PhiSign(B) * x[B].                   *)
+(***************************************************************************)
+PhiMV(m, m0, x) ==
+  [K \in DOMAIN x |-> LET B == CHOOSE B \in DOMAIN x : PhiBlade(m, m0, B) = K
+                      IN  MR!CSigned(PhiSign(m, m0, B), x[B])]
+RelabelVerdict(e) ==
+  LET m == UC(e.u)
+      m0 == UC(DefaultOf(e.u))
+      c == Compile(BitCfgM(m))
+      c0 == Compile(BitCfgM(m0))
+      args == [i \in DOMAIN e.args |-> DecodeMV(c, e.ring, e.args[i])]
+      args0 == [i \in DOMAIN e.args0 |-> DecodeMV(c0, e.ring, e.args0[i])]
+  IN
+  IF \E i \in DOMAIN args : ~MR!SameElement(PhiMV(m, m0, args[i]), args0[i]) THEN "MACHINERY_operands_are_not_relabellings"
+  ELSE IF e.raised # e.raised0 THEN "custom_and_default_basis_disagree_on_raising"
+  ELSE IF e.raised # "" THEN "ok"
+  ELSE IF ~MR!StoredOK(c, e.res.keys, e.res.coefs) \/ ~MR!StoredOK(c0, e.res0.keys, e.res0.coefs) THEN "result_not_well_formed"
+  \* Duality is relative to the algebra's OWN pseudoscalar (C05).  Phi maps the custom pseudoscalar
+  \* to s * (default pseudoscalar), s = its orientation, so operators that are linear in the
+  \* pseudoscalar (or its inverse) commute with Phi up to that factor s -- which is what
+  \* "isomorphic under Phi" means for them; all other operators commute exactly.
+  ELSE LET sdual == IF e.op \in {"hodge", "unhodge", "polarity", "unpolarity", "dual", "undual", "rp"}
+                    THEN PhiSign(m, m0, Pss(m.d)) ELSE 1
+       IN  IF MR!SameElement(PhiMV(m, m0, DecodeMV(c, e.ring, e.res)), MR!Scale(sdual, DecodeMV(c0, e.ring, e.res0))) THEN "ok"
+           ELSE "operator_does_not_commute_with_relabelling"
+
+\* operands of two algebras: must be rejected unless the algebras are the same for the user
+MixVerdict(e) ==
+  IF SameAlgebraModel(e.ua, e.ub) THEN (IF e.raised = "" THEN "ok" ELSE "identical_algebras_rejected")
+  ELSE IF SameUpToStartIndex(e.ua, e.ub) THEN "ok"
+  ELSE IF e.raised # "" THEN "ok" ELSE "operands_of_different_algebras_silently_combined"
+
 Verdict(e) ==
   CASE e.kind = "op" -> OpEventVerdict(CC, e)
+    [] e.kind = "relabel" -> RelabelVerdict(e)
+    [] e.kind = "mix" -> MixVerdict(e)
     [] e.kind = "subst" -> SubstVerdict(CC, e)
     [] e.kind = "call" -> CallEventVerdict(CC, e)
     [] e.kind = "opc" -> OpEventVerdict(Compile(BitCfg(e.u)), e)
